@@ -14,7 +14,7 @@ def run(v, tier):
     n = 25 if quick else 250
     for i in range(n):
         seed = rng.random()
-        kw = dict(nconstr=rng.choice([1, 2, 3]), naxioms=rng.choice([2, 3, 4]), nrules=rng.choice([0, 1, 2]))
+        kw = dict(nconstr=rng.choice([1, 2, 3]), naxioms=rng.choice([2, 3, 4]), nrules=rng.choice([0, 1, 2]), nsugar=rng.choice([0, 0, 1, 2]))
         for z in ('none', 'all', 'random', 'dup'):   # the same database and derivation in four compression layouts
             text, lemmas = mmgen.database(random.Random(seed), nlemmas=1, zmode=z, deep=True, **kw)
             reqs.append({'cmd': 'mmtr', 'text': text, 'target': 'goal', 'trace': z == 'all' and i % (3 if quick else 2) == 0})
